@@ -350,6 +350,7 @@ def check_C20(ctx, tier):
     A.rule_A_RED_COPY(ctx, ctx.repo, cache)
     A.rule_A_EFF(ctx, ctx.repo, cache, must_read_only=True)     # clone and original share storage only: every read goes to the store, not to a process-wide table
     S.rule_S_RED(ctx, ctx.repo)
+    K.rule_K_REPR(ctx, ctx.repo)      # K-SINGLETON: marker objects inside keys survive the round trip as themselves
     ctx.require_instances('W-RED', 12, 'decorator __reduce__ methods')
     ctx.assume("dill's by-value closure pickling and lock-step equality of the clone are not decided")
     return ('Each decorator\'s __reduce__ rebuilds the class from __state__ with every __init__ parameter in its own position (or the '
